@@ -199,7 +199,7 @@ func TestPSInterp(t *testing.T) {
 		"/ellipse{/rot exch def /a1 exch def /a0 exch def /ry exch def /rx exch def /y exch def /x exch def /m matrix currentmatrix def x y translate rot rotate rx ry scale 0 0 1 a0 a1 arc m setmatrix}def\n" +
 		"20 12 moveto 26 12 lineto 20 12 6 3 0 180 0 ellipse closepath 1 0 0 setrgbcolor gsave fill grestore 0 0 1 setrgbcolor 2 setlinewidth 1 setlinejoin[2 1]0 setdash stroke\n" +
 		"1 1 moveto 5 1 lineto 5 5 lineto .5 setgray eofill"
-	dl, _ := interpretPS([]byte(src), true)
+	dl, _, _ := interpretPS([]byte(src))
 	if len(dl.problems) != 0 || len(dl.items) != 3 {
 		t.Fatalf("%v %d", dl.problems, len(dl.items))
 	}
@@ -215,11 +215,11 @@ func TestPSInterp(t *testing.T) {
 		t.Errorf("eofill %v", dl.items[2].paint)
 	}
 	// without grestore the path is gone
-	dl, _ = interpretPS([]byte("%!PS\n%%BoundingBox: 0 0 40 24\n1 1 moveto 5 1 lineto 5 5 lineto gsave fill stroke"), true)
+	dl, _, _ = interpretPS([]byte("%!PS\n%%BoundingBox: 0 0 40 24\n1 1 moveto 5 1 lineto 5 5 lineto gsave fill stroke"))
 	if len(dl.items) != 1 {
 		t.Errorf("fill must consume the path: %d items", len(dl.items))
 	}
-	dl, _ = interpretPS([]byte("%!PS\n%%BoundingBox: 0 0 40 24\n1 1 moveto 5 1 lineto frobnicate"), true)
+	dl, _, _ = interpretPS([]byte("%!PS\n%%BoundingBox: 0 0 40 24\n1 1 moveto 5 1 lineto frobnicate"))
 	if len(dl.problems) != 1 || dl.problems[0][0] != "ps-unknown-operator" {
 		t.Errorf("%v", dl.problems)
 	}
